@@ -593,7 +593,9 @@ pub fn psrc_strategy(g: usize, class: usize) -> BoxedStrategy<PSrc> {
     match PSRC_CLASSES[class % PSRC_CLASSES.len()] {
         "neutral" => {
             if is_weierstrass(g) {
-                prop_oneof![Just(PSrc::Neutral), (prop::collection::vec(any::<u8>(), 32), prop::collection::vec(any::<u8>(), 32)).prop_map(|(x, y)| PSrc::ProjInf(x, y))].boxed()
+                // (X:Y:0) for arbitrary and for boundary X, Y ((0:0:0), (0:1:0), (1:0:0), ...): all are documented as the point at infinity
+                let coord = || prop_oneof![2 => prop::collection::vec(any::<u8>(), 32), 1 => Just(vec![0u8; 32]), 1 => Just({ let mut v = vec![0u8; 32]; v[0] = 1; v })];
+                prop_oneof![Just(PSrc::Neutral), (coord(), coord()).prop_map(|(x, y)| PSrc::ProjInf(x, y))].boxed()
             } else {
                 Just(PSrc::Neutral).boxed()
             }
